@@ -298,7 +298,11 @@ TypeNameFits(site, n) == IF site = "route_four" THEN "rej"
 \* ------------------------------------------------------------- the machine
 Init == pick = [k |-> "none"]
 PickEx == /\ Mode = "exlit" /\ pick.k = "none"
-          /\ \E i \in DOMAIN ETypes, x \in XExprs : pick' = [k |-> "exlit", ti |-> i, x |-> x]
+          \* pn: the name the probe struct (of nsa) is WRITTEN with -- its own, or `L`, the name of the struct of nsb its field
+          \* holds: a name is unique within its namespace only, and the two keep their own examples of the same label
+          /\ \E i \in DOMAIN ETypes, x \in XExprs :
+                \E pn \in (IF ETypes[i] \in {TRef("L"), TNull(TRef("L")), TList(TRef("L"), 1, Unset)} THEN {"Probe", "L"} ELSE {"Probe"}) :
+                   pick' = [k |-> "exlit", ti |-> i, x |-> x, pn |-> pn]
 PickAttr == /\ Mode = "attr" /\ pick.k = "none"
             /\ \E i \in DOMAIN ADecls, l \in AVals : pick' = [k |-> "attr", di |-> i, l |-> l]
 PickRef == /\ Mode = "docref" /\ pick.k = "none"
@@ -354,6 +358,7 @@ InShard == pick.k = "none" \/ Hash(pick) % NShards = Shard
 Vector ==
     CASE pick.k = "exlit" ->
            [mode |-> "exlit", schema |-> XSchema(ETypes[pick.ti]), examples |-> XExamples(pick.x), t |-> ETypes[pick.ti], x |-> pick.x,
+            pn |-> pick.pn,
             verdict |-> ExFits(XSchema(ETypes[pick.ti]), XExamples(pick.x), ETypes[pick.ti], pick.x)]
       [] pick.k = "attr" ->
            [mode |-> "attr", schema |-> ASchema, decl |-> ADecls[pick.di], l |-> pick.l, verdict |-> AttrFits(ASchema, ADecls[pick.di], pick.l)]
